@@ -243,6 +243,14 @@ package m3
 //@   ensures @quiet quiet()
 //@   loop 1 invariant @checked_so_far 0 <= rangeindex+1 && rangeindex+1 <= len(mtags) && len(mtags) == len(tags) && (forall p int :: 0 <= p && p <= rangeindex ==> mtags[p].Name in tags && tags[mtags[p].Name] == mtags[p].Value) && quiet()
 
+// A tag slice that was handed to a metric stays that metric's for ever: only a
+// slice the caller allocated itself in this call may go back to the pool.
+//@ func (*resourcePool).releaseMetricTagSlice
+//@   property C13
+//@   trusted
+//@   emits
+//@   requires @only_an_unshared_slice_may_be_recycled fresh(tags)
+
 //@ func (*reporter).convertTags
 //@   property C13
 //@   allocs
@@ -263,4 +271,50 @@ package m3
 //@   ensures @allocated_name result.Name == name
 //@   ensures @maximal_placeholders result.Timestamp == 9223372036854775807 && (t == counterType ==> result.Value.MetricType == m3thrift.MetricType_COUNTER && result.Value.Count == 9223372036854775807) && (t == gaugeType ==> result.Value.MetricType == m3thrift.MetricType_GAUGE && result.Value.Gauge == math.MaxFloat64) && (t == timerType ==> result.Value.MetricType == m3thrift.MetricType_TIMER && result.Value.Timer == 9223372036854775807)
 //@   ensures @allocated_tags (len(tags) == 0 ==> len(result.Tags) == 0) && (len(tags) > 0 ==> tagsAre(result.Tags, tags))
+//@   ensures @quiet quiet()
+
+// The charged size of a handle is the calculator's measurement (C16) of its
+// pre-built metric, i.e. of the metric with maximal placeholder values.
+//@ pure func psize(name string, ts int64, mt m3thrift.MetricType, count int64, gauge float64, timer int64, tagsArr int, tagsLen int) int32
+//@ pred msize(m m3thrift.Metric) { psize(m.Name, m.Timestamp, m.Value.MetricType, m.Value.Count, m.Value.Gauge, m.Value.Timer, arrof(m.Tags), len(m.Tags)) }
+
+//@ func (*reporter).calculateSize
+//@   property C12, C16
+//@   trusted
+//@   requires r != nil
+//@   ensures @measured_size result == msize(m)
+//@   ensures @quiet quiet()
+
+//@ pred handleOf(c cachedMetric, r *reporter, name string, tags map[string]string) { c.reporter == r && c.metric.Name == name && c.metric.Timestamp == 9223372036854775807 && c.size == msize(c.metric) && (len(tags) == 0 ==> len(c.metric.Tags) == 0) && (len(tags) > 0 ==> tagsAre(c.metric.Tags, tags)) }
+
+//@ func (*reporter).allocateCounter
+//@   property C12, C13, C16
+//@   allocs
+//@   requires allocWF(r) && notTheInternTable(r, tags)
+//@   modifies r.tagCache.entries, r.stringInterner.entries
+//@   ensures @handle_of_the_allocation handleOf(result, r, name, tags) && result.metric.Value.MetricType == m3thrift.MetricType_COUNTER && result.metric.Value.Count == 9223372036854775807
+//@   ensures @quiet quiet()
+
+//@ func (*reporter).AllocateCounter
+//@   property C12, C13, C16
+//@   allocs
+//@   requires allocWF(r) && notTheInternTable(r, tags)
+//@   modifies r.tagCache.entries, r.stringInterner.entries
+//@   ensures @handle_of_the_allocation is(result, cachedMetric) && handleOf(dyn(result, cachedMetric), r, name, tags) && dyn(result, cachedMetric).metric.Value.MetricType == m3thrift.MetricType_COUNTER
+//@   ensures @quiet quiet()
+
+//@ func (*reporter).AllocateGauge
+//@   property C12, C13, C16
+//@   allocs
+//@   requires allocWF(r) && notTheInternTable(r, tags)
+//@   modifies r.tagCache.entries, r.stringInterner.entries
+//@   ensures @handle_of_the_allocation is(result, cachedMetric) && handleOf(dyn(result, cachedMetric), r, name, tags) && dyn(result, cachedMetric).metric.Value.MetricType == m3thrift.MetricType_GAUGE && dyn(result, cachedMetric).metric.Value.Gauge == math.MaxFloat64
+//@   ensures @quiet quiet()
+
+//@ func (*reporter).AllocateTimer
+//@   property C12, C13, C16
+//@   allocs
+//@   requires allocWF(r) && notTheInternTable(r, tags)
+//@   modifies r.tagCache.entries, r.stringInterner.entries
+//@   ensures @handle_of_the_allocation is(result, cachedMetric) && handleOf(dyn(result, cachedMetric), r, name, tags) && dyn(result, cachedMetric).metric.Value.MetricType == m3thrift.MetricType_TIMER && dyn(result, cachedMetric).metric.Value.Timer == 9223372036854775807
 //@   ensures @quiet quiet()
